@@ -10,7 +10,7 @@ import BSModel.Gen.Entities
                                               pre-order:  D:<cps>;C:<cps> | …
     c05 rspec  <flavour> <fmt> <tbl> <tree>   the same through `renderSpec`/`renderL`
     c05 trip   <flavour> <fmt> <tree>         the root's children as a forest:
-                                              repr=<0|1> # emit=<events> # norm=<forest> # build=<forest> # norm2=<forest> # repr2=<0|1> # dst=<0|1 DoctypeStable>
+                                              repr=<0|1> # emit=<events> # norm=<forest> # build=<forest> # norm2=<forest> # repr2=<0|1> # dst=<0|1 DoctypeStable> # grow=<n: characters the text gains on the second trip>
     c05 top <rootAttr> <chain> <arg> <tbl> <tree>   `decode(formatter=arg)` incl. `formatter_for_name`/`_is_xml`:  D:<cps> | KeyError
     c05 sor <rootAttr> <chain> <arg|None> <tbl> <pname|N> <cls> <cps>   `string.output_ready(arg)`:  D:<cps> | KeyError
     c05 doctype <name|N> <pub|N> <sys|N>      `Doctype._string_for_name_and_ids` (tokens: N = None, e = "", else cps)
@@ -175,7 +175,7 @@ def trip (f : Fmt) (root : Node) : String :=
   let ds := root.kids
   let evs := emitRL f ds
   let nrm := normaliseL p f ds
-  s!"repr={bit (representableL p f ds)} # emit={"|".intercalate (evs.map showEv)} # norm={showForest nrm} # build={showForest (build p evs)} # norm2={showForest (normaliseL p f nrm)} # repr2={bit (representableL p f nrm)} # dst={bit (dstableL p (ctxOf p [rootFrame]) false ds)}"
+  s!"repr={bit (representableL p f ds)} # emit={"|".intercalate (evs.map showEv)} # norm={showForest nrm} # build={showForest (build p evs)} # norm2={showForest (normaliseL p f nrm)} # repr2={bit (representableL p f nrm)} # dst={bit (dstableL p (ctxOf p [rootFrame]) false ds)} # grow={grow p (ctxOf p [rootFrame]) ds}"
 
 def withTree (toks : List String) (k : Node → String) : String :=
   match parseNode (toks.length + 1) toks with
